@@ -138,6 +138,18 @@ func (x *Exec) verifyFunction(fn *ssa.Function, con *Contract, ifaceCon *Contrac
 		if active != nil {
 			pc.evalLetsOld(active)
 		}
+		if o.exited {
+			if active != nil && len(active.Exits) > 0 {
+				for _, e := range active.Exits {
+					pc.clause = active.Key + "/exits " + e.Name
+					g := pc.boolExpr(e.E, true)
+					x.obligeSrc(s, "exit-post", e.Name, g, fn.Pos(), e.Src)
+				}
+			} else if active == nil || !active.MayExit {
+				x.obligeSrc(s, "safety", "no-exit", tFalse, fn.Pos(), "the function has no `exits` clause: a call of the process-exit function must be unreachable")
+			}
+			continue
+		}
 		if !o.panicked {
 			var rs []*Term
 			for _, r := range o.results {
